@@ -1194,6 +1194,12 @@ class X:
         if fn == 'zeros_like':
             v = args[0]
             return Arr(v.shape, lambda *i: 0, v.dtype, 'fresh')
+        if fn == 'count_nonzero':
+            v = args[0]
+            if not isinstance(v, Arr):
+                raise Unsupported('np.count_nonzero of %s' % type(v).__name__)
+            ind = Arr(v.shape, lambda *i: z3.If(B(v.f(*i)) if isinstance(v.f(*i), (bool, z3.BoolRef)) else Z(v.f(*i)) != 0, 1, 0), 'int', 'fresh')
+            return Red('sum', ind, kwargs.get('axis', args[1] if len(args) > 1 else None))
         if fn in ('sum', 'prod', 'all', 'any', 'min', 'max'):
             v = args[0]
             if isinstance(v, (Arr, Red)):
@@ -1228,7 +1234,11 @@ class X:
                 raise Unsupported('np.%s' % fn)
             return self.concat1(parts, st)
         if fn == 'isclose':
-            return eq(args[0], args[1])     # A-real
+            # equal numbers are close; close numbers need not be equal: `a == b or CLOSE(a, b)` with CLOSE uninterpreted
+            za, zb = Z(args[0]), Z(args[1])
+            za = z3.ToReal(za) if za.is_int() else za
+            zb = z3.ToReal(zb) if zb.is_int() else zb
+            return z3.Or(za == zb, z3.Function('isclose', z3.RealSort(), z3.RealSort(), z3.BoolSort())(za, zb))
         if fn == 'inf':
             raise Unsupported('np.inf call')
         raise Unsupported('np.%s' % fn)
